@@ -14,7 +14,7 @@ FromLog(r) ==
   [h |-> r.h, inb |-> r.inb, now |-> r.now,
    feeds |-> r.feeds, values |-> r.values, vb |-> r.vb, idx |-> r.idx,
    ctx |-> r.ctx, nctx |-> r.nctx, bind |-> r.bind, earned |-> r.earned, bal |-> r.bal,
-   params |-> r.params, qBad |-> r.qBad, gvBad |-> r.gvBad, fmtBad |-> r.fmtBad]
+   params |-> r.params, xbind |-> r.xbind, qBad |-> r.qBad, gvBad |-> r.gvBad, fmtBad |-> r.fmtBad]
 
 TraceInit ==
   /\ Trace[1].ev.name = "Init"
@@ -23,9 +23,9 @@ TraceInit ==
   /\ l = 2 /\ drift = 0 /\ driftAt = 0
 
 Predicted(s, e) ==
-  LET r == Apply(s, e) IN [st |-> r.st, ok |-> r.ok, panic |-> r.panic]
+  LET r == Apply(s, e) IN [st |-> r.st, ok |-> r.ok, panic |-> r.panic, code |-> r.code]
 
-Observed(e, t) == [st |-> t, ok |-> e.ok, panic |-> e.panic]
+Observed(e, t) == [st |-> t, ok |-> e.ok, panic |-> e.panic, code |-> e.code]
 
 TraceNext ==
   /\ l <= Len(Trace)
@@ -52,7 +52,12 @@ Clauses ==
    C17_StateMirror |-> C17_StateMirror(st),
    C17_Authority |-> C17_Authority(pre, ev),
    C13_NoHalt |-> C13_NoHalt(ev),
-   Rejected_NoEffect |-> Rejected_NoEffect(pre, ev, st)]
+   Rejected_NoEffect |-> Rejected_NoEffect(pre, ev, st),
+   X17_PriceService |-> X17_PriceService(pre, ev),
+   X17_RateGate |-> X17_RateGate(pre, ev, st),
+   X17_EditApplied |-> X17_EditApplied(pre, ev, st),
+   X17_EditRejects |-> X17_EditRejects(pre, ev),
+   X17_Restart |-> X17_Restart(pre, ev, st)]
 
 Failing == IF ev.name = "Init" \/ ev.halt
            THEN (IF ev.halt THEN {"C13_NoHalt"} ELSE {})
@@ -65,7 +70,9 @@ Exercised ==
   IF ev.name = "Init" THEN {} ELSE
   {c \in {"append_respond", "append_expiry", "agg_max", "agg_min", "agg_avg", "agg_negative", "below_threshold",
           "trim", "edit_shrink", "edit_grow", "edit_ok", "start_ok", "pause_ok", "auto_pause", "unauthorized",
-          "reject", "some_invalid", "create_ok", "svc_direct"} :
+          "reject", "some_invalid", "create_ok", "svc_direct",
+          "price_200", "price_400", "price_401", "price_402", "bindx_ok", "bindx_norate", "edit_context",
+          "edit_invalid", "restart_after_autopause"} :
      CASE c = "append_respond" -> ev.name = "Respond" /\ Appending(pre, ev, st) # {}
        [] c = "append_expiry" -> ev.name = "EndBlock" /\ Appending(pre, ev, st) # {}
        [] c = "agg_max" -> AppendingBy("max") # {}
@@ -90,6 +97,17 @@ Exercised ==
        [] c = "unauthorized" -> ev.name \in {"StartFeed", "PauseFeed", "EditFeed"} /\ ~ev.ok
                                   /\ ev.feed \in DOMAIN pre.feeds /\ ev.who # pre.feeds[ev.feed].creator
        [] c = "svc_direct" -> ev.name = "SvcDirect" /\ ev.feed \in DOMAIN pre.feeds
+       [] c = "price_200" -> ev.name = "CallPrice" /\ ev.code = 200
+       [] c = "price_400" -> ev.name = "CallPrice" /\ ev.code = 400
+       [] c = "price_401" -> ev.name = "CallPrice" /\ ev.code = 401
+       [] c = "price_402" -> ev.name = "CallPrice" /\ ev.code = 402
+       [] c = "bindx_ok" -> ev.name = "BindX" /\ ev.ok
+       [] c = "bindx_norate" -> ev.name = "BindX" /\ ~ev.ok /\ Apply(pre, ev).why = "no_rate"
+       [] c = "edit_context" -> ev.name = "EditFeed" /\ ev.ok
+                                  /\ (ev.timeout # 0 \/ ev.freq # 0 \/ ev.cap # 0 \/ ev.thr # 0 \/ Len(ev.provs) # 0)
+       [] c = "edit_invalid" -> ev.name = "EditFeed" /\ ~ev.ok /\ ev.feed \in DOMAIN pre.feeds
+                                  /\ ev.who = pre.feeds[ev.feed].creator
+       [] c = "restart_after_autopause" -> gh.restart
        [] c = "reject" -> ~ev.ok}
 Coverage == Exercised = {} \/ PrintT(<<"EXERCISED", Exercised>>)
 
